@@ -12,7 +12,7 @@ import (
 func init() {
 	register(&Rule{
 		ID:    "C07.empty-point",
-		Props: []string{"C07", "C20", "C15", "C09"},
+		Props: []string{"C07", "C20", "C15", "C09", "C12", "C16", "C18"},
 		Doc:   "Point.coords may be read outside Point's own methods only where the point is known non-empty (guard on .full / !IsEmpty() of the same value), or the function requires a non-empty argument and every call site establishes it",
 		Floor: 3,
 		Run:   runC07EmptyPoint,
